@@ -237,6 +237,7 @@ func cmdCheck(args []string) {
 	cfg := defaultConfig(*tier)
 	cfg.Verbose = *verbose
 	cfg.Known = activeKnown
+	cfg.Property = *prop
 	if *tier == "thorough" {
 		cfg.SamplesPer = 64
 		cfg.CrossEvery = 1
